@@ -196,12 +196,17 @@ func verifyOne(p *Program, cs *ContractSet, o *Options, solver *Solver, key stri
 		cfg.SafeChecks = false
 	}
 	x := NewExec(p, cs, cfg)
+	t0 := time.Now()
 	obls, err := x.VerifyFunction(fn, con)
 	if err != nil {
 		return nil, x, err
 	}
 	x.finalize(obls)
+	t1 := time.Now()
 	res := solver.DischargeAll(x, obls, o.Par)
+	if o.Verbose {
+		fmt.Fprintf(os.Stderr, "%s: symbolic execution %.1fs (%d obligation instances), solving %.1fs\n", key, t1.Sub(t0).Seconds(), len(obls), time.Since(t1).Seconds())
+	}
 	return res, x, nil
 }
 
